@@ -140,7 +140,14 @@ impl RequestHandler<Rename> for RenameHandler {
                         .into_iter()
                         .map(|dl| {
                             let sl = codegen.analysis().look_up(dl.span);
-                            let path = IdentifierPath::from(sl.file.source_slice(dl.span));
+                            // (the usage of an imported symbol covers the whole 'foo as bar': the path is the first word)
+                            let path = IdentifierPath::from(
+                                sl.file
+                                    .source_slice(dl.span)
+                                    .split_whitespace()
+                                    .next()
+                                    .unwrap_or_default(),
+                            );
                             (
                                 dl,
                                 (
@@ -156,6 +163,14 @@ impl RequestHandler<Rename> for RenameHandler {
                     // Now, rename the actual symbol. This happens in a copy of the symbol table, since the request only asks
                     // which edits a rename would take: nothing is renamed until the client has applied those edits.
                     let mut symbols = codegen.symbols().clone();
+                    // (the name the symbol has where it is defined; an import may give it another name elsewhere)
+                    let old_id = symbols
+                        .query_steps_to_path(
+                            location.parent_scope,
+                            &[QueryTraversalStep::Symbol(def_symbol_nx)],
+                            false,
+                        )
+                        .and_then(|mut path| path.pop());
                     symbols.rename(
                         location.parent_scope,
                         def_symbol_nx,
@@ -164,7 +179,11 @@ impl RequestHandler<Rename> for RenameHandler {
 
                     // And rename it across all other paths by which it may be reached
                     // (other paths may exist due to imports)
-                    for (dl, (steps, _)) in steps.iter() {
+                    for (dl, (steps, old_path)) in steps.iter() {
+                        // (but not when it goes by another name there: '.import foo as bar' keeps its 'bar')
+                        if old_path.clone().pop() != old_id {
+                            continue;
+                        }
                         if let Some(QueryTraversalStep::Symbol(nx)) = steps.last() {
                             symbols.rename(
                                 dl.parent_scope,
@@ -185,6 +204,9 @@ impl RequestHandler<Rename> for RenameHandler {
                                     &query_traversal_steps,
                                     include_super,
                                 )
+                                // (a usage that cannot be reached from its scope by name, like the original name in
+                                // '.import foo as bar', simply gets the new name)
+                                .filter(|path| !path.is_empty())
                                 .map(|path| (dl, path))
                         })
                         .collect::<HashMap<_, _>>();
@@ -193,7 +215,16 @@ impl RequestHandler<Rename> for RenameHandler {
                         .definition_and_usages()
                         .into_iter()
                         .map(|dl| {
-                            let loc = to_location(codegen.analysis().look_up(dl.span));
+                            let sl = codegen.analysis().look_up(dl.span);
+                            let mut loc = to_location(sl.clone());
+                            // In '.import foo as bar' only 'foo' is to be replaced
+                            let text = sl.file.source_slice(dl.span);
+                            if let Some(path_text) = text.split_whitespace().next() {
+                                if path_text.len() < text.len() && loc.range.start.line == loc.range.end.line {
+                                    loc.range.end.character =
+                                        loc.range.start.character + path_text.encode_utf16().count() as u32;
+                                }
+                            }
 
                             // We either grab a renamed usage, or we fallback to the name specified by the user for the source definition
                             let new_text = match new_paths.get(dl) {
@@ -206,6 +237,22 @@ impl RequestHandler<Rename> for RenameHandler {
                                 new_text,
                             };
                             (loc.uri, edit)
+                        })
+                        // Usages that keep their text (the symbol goes by another name there) need no edit
+                        .filter(|(_, edit)| {
+                            let range = edit.range;
+                            let unchanged = def.definition_and_usages().into_iter().any(|dl| {
+                                let sl = codegen.analysis().look_up(dl.span);
+                                to_location(sl.clone()).range.start == range.start
+                                    && sl
+                                        .file
+                                        .source_slice(dl.span)
+                                        .split_whitespace()
+                                        .next()
+                                        .unwrap_or_default()
+                                        == edit.new_text
+                            });
+                            !unchanged
                         })
                         // The same location may be used from several scopes (a macro that is invoked more than once, a
                         // loop), which should still result in a single edit
